@@ -359,4 +359,34 @@ def run_case(case):
                     gp = sm.grid.points
                     if np.max(np.linalg.norm(gp - new, axis=1)) > 0:
                         bad("mesh-vertices-differ-from-grid", "", **coords)
+    # a smoother that outlives a change of its sketch / mesh: boundary points stay where they are WHEN smoothing runs
+    for change in ("translate-all", "move-one-boundary-point"):
+        execs += 1
+        sm, obj = make_smoother(pos, cells, dim)
+        sm.smooth(2)
+        bidx = sorted(boundary)[0]
+        try:
+            if dim == 2:
+                if change == "translate-all":
+                    obj.translate([10.0, -3.0, 0.5])
+                else:
+                    for fi, q in enumerate(cells):
+                        for ci, pi in enumerate(q):
+                            if pi == bidx:
+                                obj.faces[fi].points[ci].translate([0.3, 0.2, 0.0])
+                now = np.array(obj.positions)
+            else:
+                for v in obj.vertices:
+                    if change == "translate-all" or v.index == inv[bidx]:
+                        v.translate([10.0, -3.0, 0.5] if change == "translate-all" else [0.3, 0.2, 0.1])
+                now = np.array([v.position for v in obj.vertices])
+            sm.smooth(3)
+        except Exception as err:
+            bad("smooth-raised", f"{type(err).__name__}: {err}", change=change)
+            continue
+        after = current_positions(obj, dim, pos)
+        moved = [i for i in boundary if not np.array_equal(after[inv[i]], now[inv[i]])]
+        if moved:
+            i = moved[0]
+            bad("boundary-point-moved-back-to-snapshot", f"after '{change}' and another smooth(): boundary point {i} moved by {np.linalg.norm(after[inv[i]] - now[inv[i]]):.3g} (it was at {now[inv[i]].round(4).tolist()} when smoothing ran)", change=change)
     return {"violations": violations, "outcome": f"{case['map']}:interior={len(interior)}", "execs": execs, "nontrivial_n": execs, "states": 1, "transitions": execs}
